@@ -125,8 +125,9 @@ def run_impl(case):
     os.environ.setdefault("TQDM_DISABLE", "1")
     from skmatter.clustering import QuickShift
     from skmatter.clustering import _quick_shift as QSM
-    X = np.array(case["X"], dtype=float)
-    w = np.array(case["w"], dtype=float)
+    pres = case.get("present") or {}
+    X = SS.present_X(case["X"], case["n"], case["d"], pres.get("X", "f64"))
+    w = SS.present_w(case["w"], pres.get("w", "f64"))
     kw = {}
     if case["cell"] is not None:
         kw["metric_params"] = {"cell_length": np.array(case["cell"], dtype=float)}
@@ -386,6 +387,17 @@ def run(ctx):
         cases.append(base)
         cases.append(img)
         img_pairs.append((len(cases) - 2, len(cases) - 1))
+    # input presentations: the same values as float32 / int64 / Fortran-ordered X and as float32 / int64 / list /
+    # float64-with-near-ties weights (distinct in float64, equal after rounding to float32), next to the plain
+    # float64 presentation -- the labels must be identical
+    pres_pairs = []
+    for _ in range(60 if ctx.quick else 500):
+        base = gen_case(ctx.rng, ctx.quick)
+        pc = dict(base)
+        pc["present"] = dict(X=ctx.rng.choice(SS.X_KINDS), w=ctx.rng.choice(SS.W_KINDS))
+        cases.append(base)
+        cases.append(pc)
+        pres_pairs.append((len(cases) - 2, len(cases) - 1))
     # deep shells (gabriel_shell up to beyond the graph diameter) and larger point sets
     big_first = len(cases)
     for _ in range(10 if ctx.quick else 60):
@@ -550,6 +562,19 @@ def run(ctx):
             C.report_violation(ctx, "C16 fails on the implementation: the partition depends on which periodic images of "
                                     "the points are given (labels %s for X, %s for X + m*cell)" % (r0["labels"], r1["labels"]),
                                dict(case=c1, observed=r1, base_case=c0, base_observed=r0), found_input=True)
+    stats["presentation_pairs"] = len(pres_pairs)
+    stats["presentations"] = {}
+    for ib, ip in pres_pairs:
+        c1, r0, r1 = cases[ip], recs[ib], recs[ip]
+        key = "X=%s,w=%s" % (c1["present"]["X"], c1["present"]["w"])
+        stats["presentations"][key] = stats["presentations"].get(key, 0) + 1
+        if "error" in r0:
+            continue
+        if "error" in r1 or r0["labels"] != r1["labels"] or r0["centres"] != r1["centres"]:
+            C.report_violation(ctx, "C16 fails on the implementation: the partition depends on how the same values are "
+                                    "handed over (%s): %s vs %s for float64 arrays" % (
+                                        key, r1.get("labels", r1.get("error")), r0["labels"]),
+                               dict(case=c1, observed=r1, base_case=cases[ib], base_observed=r0), found_input=True)
     # ---- large point sets (162..400 points: beyond any chunk / block size of a vectorised rewrite).  Every case
     # is judged on the implementation side by the brute-force Gabriel / basin-partition oracle (numpy, exact
     # integers); the smallest Gabriel cases are also compared with the model in Coq (Model/QSFast.v: graph built
@@ -720,6 +745,11 @@ def replay(ctx, obj):
         return 1 if res else 0
     r = run_impl(c)
     msg = oracle(c, r)
+    if not msg and c.get("present") and "base_case" in obj:
+        r0 = run_impl(obj["base_case"])
+        if r0.get("labels") != r.get("labels"):
+            msg = "labels %s for float64 arrays but %s for the presentation %s of the same values" % (
+                r0.get("labels"), r.get("labels", r.get("error")), c["present"])
     if not msg and c.get("image_shifted") and "base_case" in obj:
         r0 = run_impl(obj["base_case"])
         if r0.get("labels") != r.get("labels"):
